@@ -1,6 +1,6 @@
 """Shared machinery of C05 / C06: case construction (conforming cell, gap-constructed shell),
 the reflection oracle, the Le Page-Gabe scan model used to recognise known finding K1."""
-import math
+import math, re
 import numpy as np
 from hypothesis import strategies as st
 from . import strat as S, oracles as O, groups as GR
@@ -145,7 +145,8 @@ def build(case, max_points=1500):
         name = " ".join(name)
     if case["byname"]:
         # the setting of an R group can be selected by the trailing r of the name alone (cell_choice left at its default)
-        B.kw = dict(sgname=name) if case.get("name_only") else dict(sgname=name, cell_choice=ch)
+        plain_for_rhomb = ch == "rhombohedral" and re.sub(r"\s+", "", name).lower()[-1] != "r"
+        B.kw = dict(sgname=name) if (case.get("name_only") and not plain_for_rhomb) else dict(sgname=name, cell_choice=ch)
     else:
         B.kw = dict(sgno=no, cell_choice=ch)
     # how the caller holds the cell: list, tuple, or one float ndarray (read-only: the generators must not modify it)
